@@ -227,6 +227,9 @@ func (c *c14ctx) sameAsBinary(lib, stdin string, args ...string) bool {
 }
 
 func (p c14) Run(w *mon.Worker, idx int) mon.Result {
+	if idx%16 == 15 {
+		return c14MultiDoc(w, idx)
+	}
 	cell := c14Cells[idx%len(c14Cells)]
 	c := &c14ctx{w: w, r: w.Rand(idx), idx: idx, cs: map[string]any{"cell": cell.name}, tags: map[string]bool{}}
 	c.bin = c.r.IntN(12) == 0
